@@ -33,11 +33,11 @@ ASSUMPTIONS = [
 # (alphabet size, max data length) of the division-vector family; data = every sorted sequence over the alphabet
 DIV = {"quick": (4, 3), "thorough": (5, 5)}
 DIV_OTHER = {"quick": (4, 2), "thorough": (4, 4)}  # float / str / datetime index
-NPK = {"quick": 8, "thorough": 10}  # target npartitions 1..NPK
+NPK = {"quick": 6, "thorough": 10}  # target npartitions 1..NPK
 UMAX = {"quick": 5, "thorough": 6}  # rows of the unknown-division sources
 UPARTS = 4
 SIZES = (10, 30, 60, 100, "1kB")
-FP = {"quick": (4, 4, 8), "thorough": (5, 4, 9)}  # (max length, alphabet, max npartitions/chunksize): EVERY (unsorted) sequence
+FP = {"quick": (4, 4, 6), "thorough": (5, 4, 9)}  # (max length, alphabet, max npartitions/chunksize): EVERY (unsorted) sequence
 UNSORTED = (2, 0, 3, 0, 1, 3, 2)
 SORTED_DUP = (0, 0, 1, 3, 3, 3, 3)
 
